@@ -244,21 +244,13 @@ func (h *history) run(p plan, rng *rand.Rand) {
 		}
 	}
 	var wg sync.WaitGroup
-	// a spin barrier: all workers leave it within nanoseconds of each other, so that operations that take
-	// well under a microsecond really overlap
-	var ready atomic.Int32
+	start := make(chan struct{})
 	per := make([][]rec, p.workers)
 	for w := 0; w < p.workers; w++ {
 		wg.Add(1)
 		go func() {
 			defer wg.Done()
-			ready.Add(1)
-			for spins := 0; ready.Load() < int32(p.workers); spins++ {
-				if spins > 2000 {
-					runtime.Gosched() // the other workers have not been scheduled yet: do not burn their CPU
-					spins = 0
-				}
-			}
+			<-start
 			for i, s := range scripts[w] {
 				key := keys[s.key]
 				r := rec{in: input{Kind: s.kind, Key: key}, client: w}
@@ -306,6 +298,7 @@ func (h *history) run(p plan, rng *rand.Rand) {
 			}
 		}()
 	}
+	close(start)
 	wg.Wait()
 	for _, p := range per {
 		h.recs = append(h.recs, p...)
